@@ -104,7 +104,7 @@ def step : List String → String
 
 
 def fmtCall (c : GenCall) : String :=
-  c.method ++ "|" ++ "|".intercalate (c.args.map fmtVec) ++ s!"|{c.size.1} {c.size.2}"
+  c.method ++ "|" ++ "|".intercalate (c.args.map fmtVec) ++ s!"|{c.size.1}x{c.size.2}"
 
 def ev (e : RExpr) : String := RExpr.evalStr [] e
 def cq (q : Rat) : RExpr := RExpr.const q
